@@ -24,18 +24,19 @@ type subscribeTransaction struct {
 func newSubscribeTransaction(ctx context.Context, h *handler1, msgID uint16, topicID uint16) *subscribeTransaction {
 	tLog := h.log.WithTag(fmt.Sprintf("REGISTERc(%d)", msgID))
 	tLog.Debug("Created.")
-	return &subscribeTransaction{
-		TimedTransaction: transactions.NewTimedTransaction(
-			ctx, h.cfg.RetryDelay,
-			func() {
-				h.transactions.Delete(msgID)
-				tLog.Debug("Deleted.")
-			},
-		),
+	t := &subscribeTransaction{
 		handler: h,
 		log:     tLog,
 		topicID: topicID,
 	}
+	t.TimedTransaction = transactions.NewTimedTransaction(
+		ctx, h.cfg.RetryDelay,
+		func() {
+			h.transactions.DeleteIf(msgID, t)
+			tLog.Debug("Deleted.")
+		},
+	)
+	return t
 }
 
 func (t *subscribeTransaction) Suback(mqSuback *mqPkts.SubackPacket) error {
